@@ -71,6 +71,44 @@ var knobs = map[string]bool{
 	"recordsPerRead":                      true,
 }
 
+// sharedReadContext: the node is read, not written (not the left-hand side of an
+// assignment, not the operand of ++/--, not under &).
+func sharedReadContext(c *astutil.Cursor) bool {
+	switch p := c.Parent().(type) {
+	case *ast.AssignStmt:
+		for _, l := range p.Lhs {
+			if l == c.Node() {
+				return false
+			}
+		}
+	case *ast.IncDecStmt:
+		return false
+	case *ast.UnaryExpr:
+		if p.Op == token.AND {
+			return false
+		}
+	case *ast.ValueSpec:
+		for _, nm := range p.Names {
+			if ast.Node(nm) == c.Node() {
+				return false
+			}
+		}
+	}
+	return true
+}
+
+// yieldThenValue builds func() T { simrt.Yield("shared-read"); return x }().
+func yieldThenValue(typ string, x ast.Expr) ast.Expr {
+	lit := &ast.FuncLit{
+		Type: &ast.FuncType{Params: &ast.FieldList{}, Results: &ast.FieldList{List: []*ast.Field{{Type: ast.NewIdent(typ)}}}},
+		Body: &ast.BlockStmt{List: []ast.Stmt{
+			&ast.ExprStmt{X: call("simrt", "Yield", &ast.BasicLit{Kind: token.STRING, Value: strconv.Quote("shared-read")})},
+			&ast.ReturnStmt{Results: []ast.Expr{x}},
+		}},
+	}
+	return &ast.CallExpr{Fun: lit}
+}
+
 type fileCtx struct {
 	pkg      *packages.Package
 	file     *ast.File
@@ -359,7 +397,32 @@ func (fc *fileCtx) rewrite(stats map[string]int) bool {
 				stats["T3-chanrange"]++
 				changed = true
 			}
+		case *ast.StarExpr:
+			// T7: reading a shared flag or counter through a pointer (`*wf.shutdownPending`)
+			// is a scheduling point, like a read of a package-level variable below
+			if tv, ok := info.Types[n]; ok && tv.Type != nil && tv.IsValue() && sharedReadContext(c) {
+				if bt, ok := tv.Type.(*types.Basic); ok && bt.Info()&(types.IsBoolean|types.IsInteger) != 0 && bt.Info()&types.IsUntyped == 0 {
+					if _, isSel := n.X.(*ast.SelectorExpr); isSel {
+						c.Replace(yieldThenValue(bt.Name(), n))
+						fc.needRT = true
+						stats["T7-shared-read"]++
+						changed = true
+					}
+				}
+			}
 		case *ast.Ident:
+			// T7: a read of a package-level variable of boolean or integer type (a flag
+			// such as haveWALWriter that goroutines use to signal each other without
+			// synchronisation) is a scheduling point, so that check-then-act on it is explored
+			if obj, ok := info.Uses[n].(*types.Var); ok && !obj.IsField() && obj.Parent() == fc.pkg.Types.Scope() && c.Name() != "Sel" && sharedReadContext(c) {
+				if bt, ok := obj.Type().(*types.Basic); ok && bt.Info()&(types.IsBoolean|types.IsInteger) != 0 {
+					c.Replace(yieldThenValue(bt.Name(), n))
+					fc.needRT = true
+					stats["T7-shared-read"]++
+					changed = true
+					return true
+				}
+			}
 			// T5: uses of selected package-level integer constants become per-run knobs
 			if knobs[n.Name] && c.Name() != "Sel" {
 				if obj, ok := info.Uses[n].(*types.Const); ok && obj.Parent() == fc.pkg.Types.Scope() &&
